@@ -33,7 +33,9 @@ MACROS = {
     'string': r'{string1}|{string2}',
     # from CSS2.1
     'invalid': r'{invalid1}|{invalid2}',
-    'url': r'[\x09\x21\x23-\x26\x28\x2a-\x7E]|{nonascii}|{escape}',
+    # escape first: the character class contains the backslash, and the first
+    # alternative that matches wins (CSS 2.1 asks for the longest match)
+    'url': r'{escape}|[\x09\x21\x23-\x26\x28\x2a-\x7E]|{nonascii}',
     's': r'\t|\r|\n|\f|\x20',
     'w': r'{s}*',
     'nl': r'\n|\r\n|\r|\f',
